@@ -16,9 +16,12 @@ D2 (contribution is a contraction over the trace axis) is decided by the axis ty
 """
 import ast
 
-from .. import flow, kernels, universe, alias, astutil
+from .. import flow, kernels, universe, alias, astutil, kernelrules
 from ..model import norm, AnalysisError, self_attr, root_name
 from .c16 import MUTATORS
+
+
+_prec_done = set()
 
 
 class Unit:
@@ -150,6 +153,13 @@ def d1(ctx, prog, u, fl_paths, fl, closure, init_funcs):
                     h = 'bind'
                 if check_store_additive(ctx, rule, f, st, t, h, acc, forbidden_reads, cond_forbidden, f'{u.cls.name}.{a}'):
                     per_acc_sites[a].append(id(st))
+        # precision discipline of plain numpy accumulation: reductions feeding an accumulator held in self.precision
+        prec_accs = {a for a in acc if any(k.arg == 'dtype' and norm(k.value) == 'self.precision' for k in u.acc[a][1].value.keywords)}
+        if any(self_attr(t) in prec_accs for t, st, how in kernels.stores(f.node)) and f.key not in _prec_done:
+            _prec_done.add(f.key)
+            res, _ = kernelrules.precision_taint(prog, f, prec='self.precision')
+            for status, construct, detail, where in res:
+                (ctx.ok if status == 'ok' else ctx.fail)('C01-D7', construct, detail, where)
         # kernels
         for call, ks in kernel_calls(prog, u.cls, f):
             for k in ks:
@@ -496,6 +506,10 @@ def run(ctx, prog):
     ctx.rule('C01-D6', 'no function under scared/analysis stores an accumulator, the count or the marker')
     ctx.assume('floating-point rounding differences between summation orders are not bounded (numeric, not decided)')
     ctx.assume('implicit exceptions inside numpy/numba calls are not modelled')
+    _prec_done.clear()
+    ctx.rule('C01-D7', 'plain numpy accumulation: every reduction/product feeding an accumulator held in self.precision operates on '
+                       'values cast to self.precision (otherwise per-batch partial sums are rounded/overflow in the traces\' dtype and '
+                       'the result depends on the split)')
     us, concrete = units(prog)
     all_acc = set()
     total_stores = 0
